@@ -34,3 +34,83 @@ package parser
 //@   loop 1 invariant forall i int :: 0 <= i && i < len(a.Items) ==> dst.Items[i].Key == old(a.Items[i].Key)
 //@   loop 1 invariant forall i int :: 0 <= i && i < len(a.Items) ==>
 //@              old(a.Items[i]).Value == old(a.Items[i].Value) && old(a.Items[i]).Key == old(a.Items[i].Key)
+
+// ---------------------------------------------------------------------------------------------
+// C10: text excluded by ignore comments cannot influence the result.
+// The reader keeps three flags; G = (file: skipAll, begin: inBegin, next: skipNext && !inBegin) is the exclusion
+// automaton of the property. lc is the list of pint comments found on the line (result of comments.Parse, abstract).
+
+//@ spec func firstOffset(cs []comments.Comment, n int) int = len(cs) > 0 ? cs[0].Offset : n
+//@ spec func isMarker(t comments.Type) bool = t == comments.IgnoreFileType || t == comments.IgnoreLineType || t == comments.IgnoreBeginType || t == comments.IgnoreEndType || t == comments.IgnoreNextLineType
+//@ spec func noMarker(cs []comments.Comment) bool = forall i int :: 0 <= i && i < len(cs) ==> !isMarker(cs[i].Type)
+//@ spec func hasType(cs []comments.Comment, t comments.Type) bool = exists i int :: 0 <= i && i < len(cs) && cs[i].Type == t
+//@ spec func blank(b byte) bool = b == ' ' || b == '\n'
+
+//@ func ContentReader.emptyCurrentLine [C10]
+//@   requires r != nil
+//@   ensures r.buf == old(r.buf)
+//@   ensures forall i int :: 0 <= i && i < len(r.buf) && old(r.buf[i]) == '\n' ==> r.buf[i] == '\n'
+//@   ensures forall i int :: 0 <= i && i < len(r.buf) && old(r.buf[i]) != '\n' && (i < firstOffset(comments, len(r.buf)) || r.inBegin) ==> r.buf[i] == ' '
+//@   ensures forall i int :: 0 <= i && i < len(r.buf) && old(r.buf[i]) != '\n' && !(i < firstOffset(comments, len(r.buf)) || r.inBegin) ==> r.buf[i] == old(r.buf[i])
+//@   ensures r.skipAll == old(r.skipAll) && r.skipNext == old(r.skipNext) && r.autoReset == old(r.autoReset) && r.inBegin == old(r.inBegin)
+//@   ensures r.comments == old(r.comments) && r.diagnostics == old(r.diagnostics) && r.lines == old(r.lines) && r.lineno == old(r.lineno)
+//@   loop 1 invariant 0 <= iter && iter <= len(r.buf) && r.buf == old(r.buf)
+//@   loop 1 invariant forall i int :: 0 <= i && i < iter && old(r.buf[i]) == '\n' ==> r.buf[i] == '\n'
+//@   loop 1 invariant forall i int :: 0 <= i && i < iter && old(r.buf[i]) != '\n' && (i < offset || r.inBegin) ==> r.buf[i] == ' '
+//@   loop 1 invariant forall i int :: 0 <= i && i < iter && old(r.buf[i]) != '\n' && !(i < offset || r.inBegin) ==> r.buf[i] == old(r.buf[i])
+//@   loop 1 invariant forall i int :: iter <= i && i < len(r.buf) ==> r.buf[i] == old(r.buf[i])
+//@   loop 1 invariant offset == firstOffset(comments, len(r.buf))
+//@   safe
+
+//@ spec func onlyMarker(cs []comments.Comment, n int, t comments.Type) bool = forall i int :: 0 <= i && i < n && isMarker(cs[i].Type) ==> cs[i].Type == t
+//@ spec func anyMarker(cs []comments.Comment, n int) bool = exists i int :: 0 <= i && i < n && isMarker(cs[i].Type)
+//@ spec func allBlank(r *ContentReader) bool = forall i int :: 0 <= i && i < len(r.buf) ==> blank(r.buf[i])
+//@ spec func rep(r *ContentReader) bool = (r.inBegin ==> r.skipNext && !r.autoReset) && (!r.inBegin && r.skipNext ==> r.autoReset || r.skipAll)
+
+//@ func ContentReader.parseComments [C10]
+//@   requires r != nil
+//@   ghost lc []comments.Comment
+//@   after call Parse set lc = result0
+//@   loop 1 invariant 0 <= iter && iter <= len(lc) && r.buf == old(r.buf) && !old(r.skipAll) && (len(lc) == 0 || !sameArray(r.comments, lc))
+//@   loop 1 invariant r.skipAll == old(r.skipAll) && r.skipNext == old(r.skipNext) && r.autoReset == old(r.autoReset) && r.inBegin == old(r.inBegin)
+//@   loop 1 invariant forall i int :: 0 <= i && i < len(r.buf) ==> r.buf[i] == old(r.buf[i])
+//@   loop 1 invariant found <==> anyMarker(lc, iter)
+//@   loop 1 invariant found && onlyMarker(lc, iter, comments.IgnoreFileType) ==> skip == skipFile
+//@   loop 1 invariant found && onlyMarker(lc, iter, comments.IgnoreLineType) ==> skip == skipCurrentLine
+//@   loop 1 invariant found && onlyMarker(lc, iter, comments.IgnoreBeginType) ==> skip == skipBegin
+//@   loop 1 invariant found && onlyMarker(lc, iter, comments.IgnoreEndType) ==> skip == skipEnd
+//@   loop 1 invariant found && onlyMarker(lc, iter, comments.IgnoreNextLineType) ==> skip == skipNextLine
+//@   loop 1 invariant len(lc) == 0 ==> len(r.comments) == old(len(r.comments))
+//
+// --- live lines (not excluded by state): markers act, text is kept
+//@   ensures r.buf == old(r.buf) && len(r.buf) == old(len(r.buf))
+//@   ensures forall i int :: 0 <= i && i < len(r.buf) && old(r.buf[i]) == '\n' ==> r.buf[i] == '\n'
+//@   ensures !old(r.skipAll) && !old(r.skipNext) && !anyMarker(lc, len(lc)) ==>
+//@              (forall i int :: 0 <= i && i < len(r.buf) ==> r.buf[i] == old(r.buf[i])) &&
+//@              r.skipAll == old(r.skipAll) && r.skipNext == old(r.skipNext) && r.autoReset == old(r.autoReset) && r.inBegin == old(r.inBegin)
+//@   ensures !old(r.skipAll) && !old(r.skipNext) && !old(r.inBegin) && anyMarker(lc, len(lc)) && onlyMarker(lc, len(lc), comments.IgnoreNextLineType) ==>
+//@              (forall i int :: 0 <= i && i < len(r.buf) ==> r.buf[i] == old(r.buf[i])) && r.skipNext && r.autoReset && !r.inBegin && !r.skipAll
+//@   ensures !old(r.skipAll) && !old(r.skipNext) && anyMarker(lc, len(lc)) && onlyMarker(lc, len(lc), comments.IgnoreBeginType) ==>
+//@              (forall i int :: 0 <= i && i < len(r.buf) ==> r.buf[i] == old(r.buf[i])) && r.skipNext && !r.autoReset && r.inBegin && !r.skipAll
+//@   ensures !old(r.skipAll) && !old(r.skipNext) && !old(r.inBegin) && anyMarker(lc, len(lc)) && onlyMarker(lc, len(lc), comments.IgnoreLineType) ==>
+//@              (forall i int :: 0 <= i && i < len(r.buf) && i < firstOffset(lc, len(r.buf)) ==> blank(r.buf[i])) &&
+//@              (forall i int :: 0 <= i && i < len(r.buf) && i >= firstOffset(lc, len(r.buf)) ==> r.buf[i] == old(r.buf[i])) && !r.skipNext && !r.inBegin && !r.skipAll
+//@   ensures !old(r.skipAll) && anyMarker(lc, len(lc)) && onlyMarker(lc, len(lc), comments.IgnoreFileType) ==> r.skipAll
+//
+// --- excluded lines: everything is blanked and the automaton moves the same way whatever the text is
+//@   ensures old(r.skipAll) ==> r.skipAll
+//@   ensures !old(r.skipAll) && old(r.skipNext) && len(lc) == 0 ==> allBlank(r) && r.inBegin == old(r.inBegin) && !r.skipAll &&
+//@              r.skipNext == (old(r.skipNext) && !old(r.autoReset)) && r.autoReset == old(r.autoReset) && len(r.comments) == old(len(r.comments))
+//@   ensures !old(r.skipAll) && old(r.inBegin) && rep(old(r)) && anyMarker(lc, len(lc)) && onlyMarker(lc, len(lc), comments.IgnoreEndType) ==> !r.inBegin && !r.skipNext && !r.skipAll
+//@   ensures !old(r.skipAll) && old(r.skipNext) && !(old(r.inBegin) && hasType(lc, comments.IgnoreEndType)) ==> allBlank(r)
+//@   ensures !old(r.skipAll) && old(r.inBegin) && old(r.skipNext) && !old(r.autoReset) && !hasType(lc, comments.IgnoreEndType) ==>
+//@              r.inBegin && r.skipNext && !r.autoReset && !r.skipAll
+//@   ensures !old(r.skipAll) && old(r.skipNext) && !(old(r.inBegin) && hasType(lc, comments.IgnoreEndType)) ==> len(r.comments) == old(len(r.comments))
+
+// The line table used later for positions is taken from the text *after* exclusion (blanking), so excluded text
+// cannot leak into positions.
+//@ func ContentReader.readNextLine [C10]
+//@   requires r != nil
+//@   ensures len(r.buf) > 0 ==> len(r.lines) == old(len(r.lines)) + 1 && r.lineno == old(r.lineno) + 1 &&
+//@              r.lines[len(r.lines)-1] == trimSuffix(string(r.buf), "\n")
+//@   ensures len(r.buf) == 0 ==> r.lines == old(r.lines) && r.lineno == old(r.lineno)
